@@ -33,8 +33,10 @@ func reachesInvoke(c *core.Ctx, fn *ssa.Function, m *types.Func, depth int) ssa.
 }
 
 // constOrder evaluates a method whose every return is the same integer constant.
-func constOrder(fn *ssa.Function) (int64, bool) {
-	if fn == nil || fn.Blocks == nil {
+func constOrder(fn *ssa.Function) (int64, bool) { return constOrderDepth(fn, 0) }
+
+func constOrderDepth(fn *ssa.Function, depth int) (int64, bool) {
+	if fn == nil || fn.Blocks == nil || depth > 3 {
 		return 0, false
 	}
 	var val int64
@@ -44,6 +46,16 @@ func constOrder(fn *ssa.Function) (int64, bool) {
 			return 0, false
 		}
 		k, ok := core.ConstInt(ret.Results[0])
+		if !ok {
+			// handed over to a collaborator: what that answers
+			if call, isCall := core.Norm(ret.Results[0]).(*ssa.Call); isCall && len(call.Common().Args) <= 1 {
+				cal := call.Common().StaticCallee()
+				if cal == nil {
+					cal = core.Seam(call.Common())
+				}
+				k, ok = constOrderDepth(cal, depth+1)
+			}
+		}
 		if !ok {
 			return 0, false
 		}
